@@ -1,2 +1,74 @@
-/- Properties/C04.lean — placeholder until the container proofs land -/
-import Model.Container
+/-
+  Properties/C04.lean — container files round-trip: `reader` applied to what `Writer` wrote returns
+  the header fields supplied and exactly the written records (normalised as in C01), for every codec
+  (any sound compress/decompress pair), sync interval, marker and metadata; the records do not depend
+  on the grouping into blocks. Lemmas: Proofs/Container.lean, Proofs/Writer.lean, Proofs/Roundtrip.lean.
+-/
+import Proofs.Writer
+import Proofs.Roundtrip
+import Proofs.Extend
+import Proofs.Header
+
+open Binary Container ContainerProofs WriterProofs
+
+/-- the record codec of a file with schema `s` -/
+def fileEnc (fuel : Nat) (env : Env) (o : WOpts) (s : Schema) : Val → WR := writeData fuel env o s
+def fileDec (fuel : Nat) (env : Env) (s : Schema) : Bytes → R (Val × Bytes) := readData fuel env {} s
+def fileNf (fuel : Nat) (env : Env) (o : WOpts) (s : Schema) (v : Val) : Val :=
+  (Spec.normalize fuel env o s v).getD .none
+
+/-- every record with a defined normal form is an admissible `write` operation (this is C01) -/
+theorem write_opOk (fuel : Nat) (env : Env) (o : WOpts) (s : Schema) (v : Val)
+    (hn : (Spec.normalize fuel env o s v).isSome) :
+    OpOk (fileEnc fuel env o s) (fileDec fuel env s) (fileNf fuel env o s) (.write v) := by
+  intro w hw
+  obtain ⟨nf, hnf⟩ := Option.isSome_iff_exists.mp hn
+  have := RoundtripProofs.roundtrip env o fuel s v nf w [] hw hnf
+  simpa [fileDec, fileNf, hnf] using this
+
+/-- **C04 (round trip).** Start from any header `hdr` already on the stream, submit any list of
+    conforming records, flush: the block area reads back as exactly the normal forms of the records,
+    in order, and ends normally — for every sound codec, sync interval, validator setting and marker.
+    (`hfit`: every block's count and compressed size are below 2^63.) -/
+theorem c04_roundtrip (fuel : Nat) (env : Env) (o : WOpts) (s : Schema) (validate : Val → R Bool) (cfg : WCfg)
+    (hs : cfg.codec.Sound) (hsync : cfg.sync.length = 16) (hdr : Bytes) (rs : List Val)
+    (hconf : ∀ r ∈ rs, (Spec.normalize fuel env o s r).isSome) :
+    let init : WState × Ghost := ({ out := hdr, pending := [], count := 0 }, { blocks := [], pend := [], submitted := [] })
+    let sg := runG (fileEnc fuel env o s) (fileDec fuel env s) validate cfg (fileNf fuel env o s) init (rs.map .write)
+    let g' := gStep (fileEnc fuel env o s) (fileDec fuel env s) validate cfg (fileNf fuel env o s) sg.1 sg.2 .flush
+    (∀ b ∈ g'.blocks, b.count < 2 ^ 63 ∧ (cfg.codec.compress b.payload).length < 2 ^ 63) →
+    ∀ k, g'.blocks.length < k →
+    ∃ area, (step (fileEnc fuel env o s) validate cfg sg.1 .flush).1.out = hdr ++ area ∧
+      readBlocks (fileDec fuel env s) cfg.codec cfg.sync k area = (g'.submitted, .eof) := by
+  intro init sg g' hfit k hk
+  have hinit : WInv (fileDec fuel env s) cfg hdr init.1 init.2 := by
+    refine ⟨by simp [init, flat], by simp [init], rfl, rfl⟩
+  have hops : ∀ op ∈ rs.map Op.write, OpOk (fileEnc fuel env o s) (fileDec fuel env s) (fileNf fuel env o s) op := by
+    intro op hop
+    obtain ⟨r, hr, rfl⟩ := List.mem_map.mp hop
+    exact write_opOk fuel env o s r (hconf r hr)
+  have hinv := inv_run (fileEnc fuel env o s) (fileDec fuel env s) validate cfg (fileNf fuel env o s)
+    (ExtendProofs.readData_ext env {} fuel s) hdr init (rs.map .write) hinit hops
+  exact flush_reads_back (fileEnc fuel env o s) (fileDec fuel env s) validate cfg (fileNf fuel env o s)
+    (ExtendProofs.readData_ext env {} fuel s) hs hsync hdr sg.1 sg.2 hinv hfit k hk
+
+/-- **C04 (grouping).** the records obtained from a well-formed block area do not depend on how they
+    are grouped into blocks: they are the concatenation of the blocks' records -/
+theorem c04_partition_independent (dec : Bytes → R (Val × Bytes)) (c : Codec) (hs : c.Sound) (sync : Bytes)
+    (hsync : sync.length = 16) (bs : List Blk) (hok : ∀ b ∈ bs, b.Ok dec c) (k : Nat) (hk : bs.length < k) :
+    readBlocks dec c sync k (flat c sync bs) = (bs.flatMap (·.recs), .eof) :=
+  read_flat dec c hs sync hsync bs hok k hk
+
+/-- **C04 (header).** the header written at creation is read back with exactly the metadata map
+    (schema JSON, codec name, user metadata — byte for byte) and sync marker supplied, and leaves the
+    stream at the first block; the file begins with the magic -/
+theorem c04_header_roundtrip (metadata : List (String × Bytes)) (sync rest hb : Bytes)
+    (hw : writeHeader metadata sync = ⟨hb, none⟩) (hsync : sync.length = 16)
+    (hkeys : (metadata.map (·.1)).Nodup) (hlen : metadata.length < Spec.LIMIT)
+    (hsmall : ∀ e ∈ metadata, (utf8Enc e.1).length < Spec.LIMIT ∧ e.2.length < Spec.LIMIT) :
+    readHeader (hb ++ rest) = .ok ({ metadata := metadata, sync := sync }, rest) :=
+  HeaderProofs.header_roundtrip metadata sync rest hb hw hsync hkeys hlen hsmall
+
+example : (writeHeader [("avro.schema", [0x22]), ("avro.codec", [0x6e])] (List.replicate 16 9)).err = none ∧
+    isAvro (writeHeader [("avro.schema", [0x22]), ("avro.codec", [0x6e])] (List.replicate 16 9)).out = true := by
+  decide +kernel
